@@ -152,7 +152,7 @@ def mk_bufferized_up(r, nb, rev, tokens=None):
 def jobs(tier):
     quick = tier == "quick"
     J = []
-    A = lambda mk, **kw: J.append(Job("A", mk, max_states=kw.pop("max_states", 20000 if quick else 1000000), **kw))
+    A = lambda mk, **kw: J.append(Job("A", mk, max_states=kw.pop("max_states", 20000 if quick else 200000), **kw))
     B = lambda mk, **kw: J.append(Job("B", mk, cycles=3000 if quick else 30000, runs=1 if quick else 4, **kw))
     T2 = [(0, 0, 1), (1, 1, 0)]   # two token values that toggle every field (keeps stale-memory blow-up small)
 
@@ -201,7 +201,7 @@ def jobs(tier):
                 if quick and msb != ((i + o) % 2 == 0) and L.io_lcm(i, o) > 6:
                     continue      # quick: both bit orders only for the small registers
                 A(lambda i=i, o=o, msb=msb: mk_gearbox(i, o, msb, tokens=gb_tokens(i) if quick and i >= 3 else None),
-                  max_states=5000 if quick else 400000)
+                  max_states=5000 if quick else 20000)
 
     # ---- routing
     for n in (1, 2, 3):
@@ -261,10 +261,50 @@ def jobs(tier):
     return J
 
 
+MAKERS = {"up": lambda *a: mk_up(*a), "down": lambda *a: mk_down(*a), "pack": lambda *a: mk_pack(*a),
+          "unpack": lambda *a: mk_unpack(*a), "stride": lambda *a: mk_stride(*a),
+          "gearbox": lambda *a: mk_gearbox(*a), "gate": lambda *a: mk_gate(*a), "delay": lambda *a: mk_delay(*a),
+          "shifter": lambda *a: mk_shifter(*a)}
+
+
+def corpus(ctx):
+    """corpus/C03/*.json: finding witnesses and minimised mutation witnesses.  Each is replayed on the real code
+    with the property oracle armed and in lock-step against the model."""
+    import os, glob, json
+    from explore import Disagreement, _masked_equal
+    here = os.path.join(os.path.dirname(os.path.dirname(os.path.dirname(os.path.abspath(__file__)))), "corpus", "C03")
+    out = []
+    n = 0
+    for f in sorted(glob.glob(os.path.join(here, "*.json"))):
+        w = json.load(open(f))
+        inst = MAKERS[w["make"]](*w["args"])
+        inst.name = "corpus/" + os.path.basename(f)[:-5] + ":" + inst.name
+        trace = [tuple(l) for l in w["trace"]]
+        r = replay_with_monitor(inst, trace)
+        if r:
+            out.append(Disagreement(inst, trace[:r[0] + 1], r[0], None, None, kind="monitor:" + r[1]))
+        root = inst.netlist.snapshot()
+        impl = [impl_step(inst, l) for l in trace]
+        inst.netlist.restore(root)
+        ctx.lean.open(inst.lean_open)
+        model = ctx.lean.run(trace)
+        ctx.lean.close_session()
+        for t, (a, m) in enumerate(zip(impl, model)):
+            if not _masked_equal(inst, a, m):
+                out.append(Disagreement(inst, trace[:t + 1], t, a, m))
+                break
+        n += 1
+        ctx.cov.add_instance(inst.name, states=0, transitions=len(trace),
+                             nontrivial=sum(1 for l, o in zip(trace, impl) if inst.nontrivial(l, o)),
+                             exhaustive=False, mode="corpus")
+    return out
+
+
 def correspond(ctx):
+    dis = corpus(ctx)
     ctx.jobs = jobs(ctx.tier)
-    dis, bad = run_jobs(ctx, ctx.jobs)
-    return dis
+    d2, bad = run_jobs(ctx, ctx.jobs)
+    return dis + d2
 
 
 def search(ctx, disagreements, proof_info):
@@ -325,4 +365,13 @@ def probes(ctx):
 
 def replay(ctx, payload):
     from explore import generic_replay
+    if payload.get("kind") in ("fixed-finding-returned", "unlisted-finding"):
+        bad = [(fid, what) for fid, fails, what in probes(ctx) if fails and fid == payload.get("id")]
+        for fid, what in bad:
+            print("%s: %s" % (fid, what))
+        if bad:
+            print("VIOLATION property=%s replay=(replayed)" % ctx.prop)
+            return 1
+        print("finding witness passes on the current tree")
+        return 0
     return generic_replay(ctx, payload, jobs("thorough"))
